@@ -9,23 +9,27 @@ Import ListNotations.
 
 (* For every program of the reader language without an error-discarding
    construct and without a reclassification outside a DecodeStream chain, every
-   file, every fault (any index, both modes) and every start state in which the
-   fault has not fired: the faulted run is the fault-free run (same result, same
-   recorded errors, same state), or the call returns the injected I/O error -
-   never a malformed-file error, never different data. *)
+   file, every start state and every fault - any index, both modes, the failing
+   call returning (0, err), part of the data with err, or all of the data with
+   err, and whatever the reading code makes of data that comes with an error,
+   except taking it for the end of the input: the faulted run returns what the
+   fault-free run returns and records the same errors, or it returns the
+   injected I/O error - never a malformed-file error, never different data. *)
 Theorem fault_surfaces :
   forall (file : N -> val) (p : prog) (f : fault) (s : st),
-    safe false p -> fired s = false -> swallowed s = false ->
-    eval file (Some f) p s = eval file None p s \/
+    safe false p -> (forall n, forc f n <> ShortTaken) ->
+    (fst (eval file (Some f) p s) = fst (eval file None p s) /\
+     recorded (snd (eval file (Some f) p s)) = recorded (snd (eval file None p s))) \/
     fst (eval file (Some f) p s) = Err (IO (fid f)).
 Proof. exact (fun file p f s => fault_surfaces_lemma file p f s). Qed.
 Print Assumptions fault_surfaces.
 
-(* With error-discarding constructs allowed: the only way out is that one of
-   them actually caught an error after the fault had fired. *)
+(* With error-discarding constructs allowed (failing calls returning (0, err)):
+   the only way out is that one of them actually caught an error after the
+   fault had fired. *)
 Theorem fault_surfaces_unless_swallowed :
   forall (file : N -> val) (c : bool) (p : prog) (f : fault) (s : st),
-    safe c p -> fired s = false ->
+    fkd f = FKErr -> safe c p -> fired s = false ->
     eval file (Some f) p s = eval file None p s \/
     fst (eval file (Some f) p s) = Err (IO (fid f)) \/
     swallowed (snd (eval file (Some f) p s)) = true.
@@ -33,10 +37,11 @@ Proof. exact (fun file c p f s => fault_surfaces_unless_swallowed_lemma file c p
 Print Assumptions fault_surfaces_unless_swallowed.
 
 (* Every fault index that the fault-free run reaches (1 <= k <= number of ReadAt
-   calls) makes the call return exactly the injected error. *)
+   calls), the failing call returning (0, err), makes the call return exactly
+   the injected error. *)
 Theorem fault_in_range_surfaces :
   forall (file : N -> val) (p : prog) (f : fault),
-    safe false p ->
+    fkd f = FKErr -> safe false p ->
     (1 <= fk f <= reads (snd (eval file None p st0)))%nat ->
     fst (eval file (Some f) p st0) = Err (IO (fid f)).
 Proof. exact fault_in_range_surfaces_lemma. Qed.
@@ -57,6 +62,7 @@ Theorem gopdf_fault_in_range :
   forall file m t q ks bad f p,
     p = open_prog m t \/ p = seq_prog m q \/ p = get_prog ks bad \/
     p = drain_prog ks bad \/ p = decode_prog ks bad ->
+    fkd f = FKErr ->
     (1 <= fk f <= reads (snd (eval file None p st0)))%nat ->
     fst (eval file (Some f) p st0) = Err (IO (fid f)).
 Proof. exact gopdf_fault_in_range_lemma. Qed.
@@ -111,12 +117,42 @@ Theorem sink_surfaces :
 Proof. exact sink_surfaces_lemma. Qed.
 Print Assumptions sink_surfaces.
 
+(* Writer.Close in full: whatever it writes (catalog, Info, deferred objects,
+   cross-reference table or stream with or without a placeholder, trailer),
+   then the Flush, then the Close of the sink if the Writer owns it - if the
+   sink has failed at ANY call, before Close or during it, and no raw call of a
+   Placeholder.Set / read-back returned that error before Close was called, then
+   the result of Close is the sink's error. *)
+Theorem close_reports :
+  forall (f : fault) (before body : list sop) (owns : bool),
+    let s := snd (run_ops (Some f) before w0) in
+    let rs := fst (run_ops (Some f) before w0) in
+    sfired (snd (run_close (Some f) (close_ops body owns) s)) = true ->
+    raw_reported (fid f) before rs = true \/
+    fst (run_close (Some f) (close_ops body owns) s) = Some (fid f).
+Proof. exact close_reports_lemma. Qed.
+Print Assumptions close_reports.
+
+(* In particular: the sink was healthy when Close was called (after the last
+   Put) and fails at any call Close makes - a write of the cross-reference data
+   or the trailer, a seek or write of a placeholder, the Flush, the sink's own
+   Close: the result of Close is that error. *)
+Theorem close_reports_own_calls :
+  forall (f : fault) (before body : list sop) (owns : bool),
+    let s := snd (run_ops (Some f) before w0) in
+    sfired s = false ->
+    sfired (snd (run_close (Some f) (close_ops body owns) s)) = true ->
+    fst (run_close (Some f) (close_ops body owns) s) = Some (fid f).
+Proof. exact close_reports_own_calls_lemma. Qed.
+Print Assumptions close_reports_own_calls.
+
 (* Every index of a sink call of the fault-free run, both fault modes: the
-   error comes back no later than the Flush of Close. *)
+   error comes back no later than the Flush of Close, or from the Close of the
+   sink if the Writer owns it. *)
 Theorem sink_in_range_surfaces :
-  forall ops fmd k,
-    (1 <= k <= scalls (snd (run_ops None (ops ++ [FinalFlush]) w0)))%nat ->
-    surfaces_at (ops ++ [FinalFlush]) fmd k = true.
+  forall ops (owns : bool) fmd k,
+    (1 <= k <= scalls (snd (run_ops None (ops ++ close_ops [] owns) w0)))%nat ->
+    surfaces_at (ops ++ close_ops [] owns) fmd k = true.
 Proof. exact sink_in_range_surfaces_lemma. Qed.
 Print Assumptions sink_in_range_surfaces.
 
@@ -135,6 +171,15 @@ Example policy_table_preF6_refuted :
   exists m c, In m all_modes /\ c <> Malformed /\
               (if has_policy PhCatalog then should_exit_preF6 m (is_malformed c) else Exit) <> Exit.
 Proof. exact policy_table_preF6_refuted_lemma. Qed.
+
+(* what the hypothesis on the decisions excludes, and what the others give *)
+Example short_read_decisions :
+  fst (eval default_file (Some (partial_fault ShortTaken)) (Latch (ReadAt 0)) st0) = Ok 0%N /\
+  fst (eval default_file None (Latch (ReadAt 0)) st0) = Ok 1%N /\
+  fst (eval default_file (Some (partial_fault Enough)) (Latch (Bind (ReadAt 0) (fun a => Bind (ReadAt 1) (fun b => Ret (a + b)%N)))) st0) = Err (IO inj_id) /\
+  fst (eval default_file (Some (partial_fault Enough)) (Latch (ReadAt 0)) st0) = Ok 1%N /\
+  fst (eval default_file (Some (partial_fault Dropped)) (Latch (Bind (ReadAt 0) (fun a => Bind (ReadAt 1) (fun b => Ret (a + b)%N)))) st0) = Ok 3%N.
+Proof. exact short_taken_breaks. Qed.
 
 Example catchall_is_excluded : outcome_at (CatchAll (ReadAt 0) (fun _ => Ret 0%N)) OnlyK 1 = ODifferent.
 Proof. exact catchall_changes_data. Qed.
